@@ -562,11 +562,13 @@ impl Epoch {
 
         let s = s_in.trim();
 
-        for (idx, char) in s.chars().enumerate() {
-            if !char.is_numeric() || idx == s.len() - 1 {
+        // NOTE: these are byte indexes because they are used to slice the string.
+        let last_idx = s.char_indices().next_back().map_or(0, |(idx, _)| idx);
+        for (idx, char) in s.char_indices() {
+            if !char.is_numeric() || idx == last_idx {
                 if cur_token == Token::Timescale {
                     // Then we match the timescale directly.
-                    if idx != s.len() - 1 {
+                    if idx != last_idx {
                         // We have some remaining characters, so let's parse those in the only formats we know.
                         ts = TimeScale::from_str(s[idx..].trim()).with_context(|_| ParseSnafu {
                             details: "parsing as Gregorian date with time scale",
@@ -578,12 +580,12 @@ impl Epoch {
 
                 let pos = cur_token.gregorian_position().unwrap();
 
-                let end_idx = if idx != s.len() - 1 || !char.is_numeric() {
+                let end_idx = if idx != last_idx || !char.is_numeric() {
                     // Only advance the token if we aren't at the end of the string
                     cur_token.advance_with(char)?;
                     idx
                 } else {
-                    idx + 1
+                    idx + char.len_utf8()
                 };
 
                 if prev_idx > end_idx {
@@ -616,10 +618,10 @@ impl Epoch {
                         })
                     }
                 }
-                prev_idx = idx + 1;
+                prev_idx = idx + char.len_utf8();
                 // If we are about to parse an hours offset, we need to set the sign now.
                 if cur_token == Token::OffsetHours {
-                    if &s[idx..idx + 1] == "-" {
+                    if char == '-' {
                         offset_sign = -1;
                     }
                 }
